@@ -30,6 +30,7 @@ type runner struct {
 	iw   hx.CaseFile
 	ex   hx.CaseFile
 	idc  hx.CaseFile
+	rxr  hx.CaseFile
 }
 
 // maxSlow: after this many runs of one family ended in a watchdog timeout (a
@@ -414,6 +415,7 @@ func main() {
 	x.life = hx.CaseFile{Name: "life", Imports: importsLife, Ok: "rl_case_ok", Type: "rlcase"}
 	x.iw = hx.CaseFile{Name: "iw", Imports: importsLife, Ok: "iw_case_ok", Type: "iwcase"}
 	x.ex = hx.CaseFile{Name: "ex", Imports: importsLife, Ok: "ex_case_ok", Type: "excase"}
+	x.rxr = hx.CaseFile{Name: "rxr", Imports: importsLife, Ok: "rxr_case_ok code_routed", Type: "rxrcase"}
 	x.idc = hx.CaseFile{Name: "idc", Imports: importsLife, Ok: "id_case_ok code_gencond", Type: "idcase"}
 	xmpp.VerifSetHook(hookDispatch)
 	currentPath = filepath.Join(o.Out, "current.json")
@@ -487,6 +489,9 @@ func main() {
 		for _, acts := range rxCorpus {
 			x.rxReplay(acts, "corpus")
 		}
+		for _, acts := range rxTypeCorpus() {
+			x.rxReplay(acts, "corpus")
+		}
 		for _, acts := range mucCorpus {
 			x.mucReplay(acts, "corpus")
 		}
@@ -550,6 +555,7 @@ func main() {
 	res.CaseFiles = append(res.CaseFiles, x.iw.Write(o.Out, 400)...)
 	res.CaseFiles = append(res.CaseFiles, x.ex.Write(o.Out, 400)...)
 	res.CaseFiles = append(res.CaseFiles, x.idc.Write(o.Out, 400)...)
+	res.CaseFiles = append(res.CaseFiles, x.rxr.Write(o.Out, 400)...)
 	res.Extra["model_cases"] = x.core.Len() + x.rx.Len() + x.muc.Len() + x.ibb.Len() + x.life.Len() + x.iw.Len() + x.ex.Len() + x.idc.Len()
 	res.Write(o.Out)
 }
